@@ -515,6 +515,32 @@ def runCsLine (r : Report) (sec : Nat) (cfg : CsCfg) (scb : String) (l : Line) :
 def runCryptLine (r : Report) (sec : Nat) (key : Bytes) (limit : Int) (l : Line) : Report :=
   let fail (msg : String) := r.mismatch sec l.idx msg (joinSp l.op)
   match l.op with
+  | "big" :: _ =>
+    -- a PROPERLY encrypted body of `blen` bytes around the cap: the model decides on lengths (`readAdmits`, proven equal to
+    -- `readBody`'s decision for every body: readBody_isSome_iff_admits), the harness states whether the handler saw the payload
+    let o := l.obs
+    match (kv? o "cl").bind String.toInt?, (kv? o "blen").bind String.toNat?, (kv? o "status").bind String.toNat? with
+    | some cl, some blen, some status =>
+      let ran : Bool := decide (kv? o "ran" ≠ some "0")
+      let seenOk : Bool := decide (kv? o "seenok" = some "1")
+      let keyOk := key.length = 16 || key.length = 24 || key.length = 32
+      let admits := readAdmits limit cl blen
+      let cap : Int := if cl > 0 then limit else unknownCap limit
+      let r := { r with ops := r.ops + 1 }
+      let cls := if (blen : Int) + 1 = cap then "one-below" else if (blen : Int) = cap then "at" else if (blen : Int) = cap + 1 then "one-over"
+                 else if (blen : Int) > cap ∧ cap > 0 then "far-over" else "uncapped"
+      let r := r.addCover s!"crypt-default-cap-{cls}-{if cl > 0 then "known-length" else "chunked"}-{if admits then "read-whole" else "refused"}"
+      let mRan := admits && keyOk
+      let r := if mRan ≠ ran ∨ (if mRan then 200 else 400) ≠ status then
+          r.mismatch sec l.idx s!"ran={mRan} status={if mRan then 200 else 400}" s!"ran={ran} status={status}" else r
+      if ran ∧ !admits then
+        r.violation sec l.idx s!"crypt: the handler ran although the body of {blen} bytes is over the cap of {cap} bytes [cl={cl}, limit {limit}]"
+      else if ran ∧ !seenOk then
+        r.violation sec l.idx s!"crypt: at the cap the handler did not see the decrypted payload of the whole body ({blen} bytes, cap {cap}) [cl={cl}, limit {limit}]"
+      else if !ran ∧ admits ∧ keyOk then
+        r.violation sec l.idx s!"crypt: a properly encrypted payload in a body of {blen} bytes (cap {cap}) did not reach the handler (status {status})"
+      else r
+    | _, _, _ => fail "unparsable-line"
   | "req" :: a =>
     let o := l.obs
     let parsed : Option (Bytes × Bytes × Int × List (Bytes × Bytes)) := do
